@@ -156,7 +156,7 @@ func c05Classify(r *prog.Runner) func(op prog.Op, d *disc) {
 
 func c05GenOp(rt *rapid.T) prog.Op {
 	k := rapid.SampledFrom(c05Keys).Draw(rt, "k")
-	kind := rapid.SampledFrom([]string{"put", "put", "put", "del", "del", "delver", "delver", "delver", "mdel", "get", "getver", "headver", "setver", "setver"}).Draw(rt, "kind")
+	kind := rapid.SampledFrom([]string{"put", "put", "put", "del", "del", "delver", "delver", "delver", "mdel", "get", "getver", "headver", "setver", "setver", "post", "copy"}).Draw(rt, "kind")
 	op := prog.Op{K: kind, B: "bk0", Key: k}
 	switch kind {
 	case "put":
@@ -164,6 +164,11 @@ func c05GenOp(rt *rapid.T) prog.Op {
 		if rapid.IntRange(0, 2).Draw(rt, "meta") == 0 {
 			op.Meta = [][2]string{{"X-Amz-Meta-V", fmt.Sprint(rapid.IntRange(0, 99).Draw(rt, "mv"))}}
 		}
+	case "post":
+		// versions are also made by the other ways of storing an object
+		op.K, op.Via, op.Body = "put", "post", genBody(rt, "body")
+	case "copy":
+		op.SB, op.SKey = "bk0", rapid.SampledFrom(c05Keys).Draw(rt, "src")
 	case "delver", "getver", "headver":
 		op.Ref = rapid.IntRange(-3, 6).Draw(rt, "ref")
 	case "mdel":
@@ -218,7 +223,7 @@ func TestC05(t *testing.T) {
 		ID:    "C05",
 		Level: "exploration",
 		Rule: "cases = versioning histories on s3mem; bounded-exhaustive: every program of length <= L (L=4 quick, 5 thorough) over a 9-op alphabet on one key after an initial Enable; " +
-			"random: rapid programs of 10-60 ops over 2 keys (put, delete, delete-version(ref), multi-delete with/without version refs, get, get/head-version(ref), set-versioning Enabled|Suspended), refs symbolic over all IDs ever issued; " +
+			"random: rapid programs of 10-60 ops over 2 keys (put, browser-form POST, copy between the keys, one-part multipart uploads completed with other ops in between, delete, delete-version(ref), multi-delete with/without version refs, get, get/head-version(ref), set-versioning Enabled|Suspended), refs symbolic over all IDs ever issued; " +
 			"after EVERY step each remaining enabled-era version is read back by ID with GET and HEAD, the unqualified read is compared with the newest remaining entry, and ListObjectVersions is cross-checked; " +
 			"non-trivial = the program deletes the newest version while older remain, writes/deletes while suspended with enabled-era versions present, deletes a delete marker, or re-enables after suspension",
 		Replay: c05Replay,
@@ -316,13 +321,29 @@ func c05Run(t *testing.T, c *evid.Collector) {
 		default:
 			cs.Ops = append(cs.Ops, prog.Op{K: "setver", B: "bk0", Status: "Enabled"})
 		}
+		uploads := 0
 		for i := 0; i < n; i++ {
+			if rapid.IntRange(0, 11).Draw(rt, "mpu") == 0 {
+				// ... and by completing a multipart upload
+				k := rapid.SampledFrom(c05Keys).Draw(rt, "uk")
+				cs.Ops = append(cs.Ops, prog.Op{K: "init", B: "bk0", Key: k},
+					prog.Op{K: "part", Ref: uploads, PartN: 1, Body: append([]byte("p"), genBody(rt, "pbody")...)})
+				if rapid.Bool().Draw(rt, "between") {
+					cs.Ops = append(cs.Ops, c05GenOp(rt))
+				}
+				cs.Ops = append(cs.Ops, prog.Op{K: "complete", Ref: uploads, Parts: []prog.Part{{N: 1}}})
+				uploads++
+				continue
+			}
 			cs.Ops = append(cs.Ops, c05GenOp(rt))
 		}
 		ds, labels := c05Exec(cs, func(r *prog.Runner) func(op prog.Op, d *disc) { return c05Classify(r) })
 		var ls []string
 		for l := range labels {
 			ls = append(ls, l)
+		}
+		if uploads > 0 {
+			ls = append(ls, "version-by-multipart")
 		}
 		c.Case(evid.FP(mustJSON(cs)), c05Nontrivial(labels), func() interface{} { return cs }, append(ls, "src:random")...)
 		if report(c, "history", ds, cs) {
